@@ -136,6 +136,8 @@ type exec struct {
 
 	abort    atomic.Bool          // set at the first missed liveness bound: the run is void (retried or judged on safety only)
 	forbid   map[[2]uint32]string // (session, seq) of datagrams sent to a name while it did not resolve
+	once     map[[2]uint32]string // (session, seq) of datagrams that must be observed at their destination exactly once
+	atMost   map[[2]uint32]bool   // backlog datagrams beyond the send channel capacity: may be dropped
 	mu       sync.Mutex
 	liveMiss []string
 	labels   map[string]bool
@@ -221,6 +223,89 @@ func (x *exec) tour(c *udpsvc.Client, t *tourStops, fill int) {
 	}
 }
 
+// backlog: the session's uplink is made to wait inside its packer (held DNS answer for the gated name)
+// while N more datagrams arrive for the same session; then the answer is released. Every datagram that
+// fits the send channel must reach its destination exactly once, in whatever batches the uplink forms;
+// the ones beyond the capacity may be dropped (never corrupted, duplicated or misdirected). After the
+// backlog has drained a few datagrams are written back to back: exactly once each.
+func (x *exec) backlog(c *udpsvc.Client, o planOp) {
+	capacity := 1024
+	if x.p.SendChanCap != 0 {
+		capacity = x.p.SendChanCap
+	}
+	name := x.w.Dests[o.Alt].Name
+	ip := x.w.IPs[x.p.Dests[o.Alt].Sock]
+	if !x.paceTo(c, o.Prime, o.Fill, "priming the packer's cache with another name") {
+		return
+	}
+	gate := make(chan struct{})
+	udpsvc.SetName(name, udpsvc.NameRule{IP: ip, Gate: gate})
+	released := false
+	release := func() {
+		if !released {
+			released = true
+			close(gate)
+			udpsvc.SetName(name, udpsvc.NameRule{IP: ip})
+		}
+	}
+	defer release()
+	mark := func(seq uint32, idx int) {
+		k := [2]uint32{uint32(c.ID), seq}
+		x.mu.Lock()
+		if idx < capacity {
+			x.once[k] = fmt.Sprintf("datagram %d of a backlog of %d behind a held DNS answer (send channel capacity %d, relay batch %d)", idx, o.N+1, capacity, x.p.RelayBatch)
+		} else {
+			x.atMost[k] = true
+		}
+		x.mu.Unlock()
+	}
+	seq0 := c.NextSeq()
+	mark(seq0, 0)
+	c.Send(seq0, o.Alt, o.Fill) // the uplink now waits for the answer
+	time.Sleep(3 * time.Millisecond)
+	dests := make([]int, o.N)
+	fills := make([]int, o.N)
+	first := c.MaxSeq() + 1
+	for i := range dests {
+		dests[i] = o.Dest
+		if i%3 == 1 {
+			dests[i] = o.Alt
+		}
+		fills[i] = (o.Fill + 53*i) % 1300
+		mark(first+uint32(i), i+1)
+	}
+	c.BurstFills(dests, fills)
+	time.Sleep(30 * time.Millisecond)
+	release()
+	time.Sleep(10 * time.Millisecond) // let the uplink start draining, a full channel would rightly drop the next datagram
+	if !x.paceTo(c, o.Dest, 8, "behind the released backlog") {
+		return
+	}
+	// the backlog has drained (the uplink is FIFO): now a few datagrams back to back
+	n := 2 + o.N%3
+	first = c.MaxSeq() + 1
+	pd, pf := make([]int, n), make([]int, n)
+	for i := range pd {
+		pd[i] = o.Dest
+		if i%2 == 1 {
+			pd[i] = o.Alt
+		}
+		pf[i] = (o.Fill + 211*i) % 1300
+		x.mu.Lock()
+		x.once[[2]uint32{uint32(c.ID), first + uint32(i)}] = "datagram written back to back after the backlog had drained"
+		x.mu.Unlock()
+	}
+	c.BurstFills(pd, pf)
+	x.paceTo(c, o.Dest, o.Fill, "after the post-backlog datagrams")
+	if o.N+1 > capacity {
+		x.label("send-channel-overflow:" + x.p.BatchMode)
+	}
+	if x.p.BatchMode == "sendmmsg" && x.p.RelayBatch > 0 && o.N >= x.p.RelayBatch {
+		x.label("backlog-exceeds-relay-batch:sendmmsg")
+	}
+	x.label("backlog:" + x.p.BatchMode)
+}
+
 // garbageFirst makes the first datagram of the client's current socket one the server cannot accept.
 func (x *exec) garbageFirst(c *udpsvc.Client, kind int) {
 	var b []byte
@@ -274,6 +359,8 @@ func (x *exec) runOps(c *udpsvc.Client, ops []planOp, gf int) {
 				kind = "ss2022"
 			}
 			x.label("relay-switch:" + kind + ":" + x.p.BatchMode)
+		case "backlog":
+			x.backlog(c, o)
 		case "freshburst":
 			// a new client address whose first datagrams arrive as one burst while the session is being set
 			// up; some of them cannot be sent by the relay (target port 0)
@@ -339,7 +426,7 @@ func (x *exec) sendGarbage(kinds []int, fromLive bool) {
 }
 
 func runPlan(p *plan, workDir string) (out outcome) {
-	x := &exec{p: p, labels: map[string]bool{}, gLabels: map[string]int{}, forbid: map[[2]uint32]string{}}
+	x := &exec{p: p, labels: map[string]bool{}, gLabels: map[string]int{}, forbid: map[[2]uint32]string{}, once: map[[2]uint32]string{}, atMost: map[[2]uint32]bool{}}
 	scn := scenarioCounter.Add(1) + uint32(os.Getpid())<<12
 	fail := func(sig, format string, args ...any) {
 		if out.violation == "" {
@@ -395,7 +482,7 @@ func runPlan(p *plan, workDir string) (out outcome) {
 	w.SetDropFirst(p.DropFirst)
 
 	spec := &udpsvc.Spec{ServerProto: p.ServerProto, BatchMode: p.BatchMode, NATTimeout: "60s",
-		RelayBatchSize: p.RelayBatch, ServerRecvBatchSize: p.RecvBatch, ClientProto: p.ClientProto, ListenWildcard: p.Wildcard}
+		RelayBatchSize: p.RelayBatch, ServerRecvBatchSize: p.RecvBatch, SendChannelCapacity: p.SendChanCap, ClientProto: p.ClientProto, ListenWildcard: p.Wildcard}
 	x.spec = spec
 	if udpsvc.IsSS2022(p.ServerProto) {
 		spec.ServerKeys = keysFor(p.ServerProto, p.ServerEIH, p.Seed, 1)
@@ -598,7 +685,7 @@ func (x *exec) nameSessionsThroughDirect() int {
 		uses := false
 		for _, ops := range [][]planOp{s.A, s.B} {
 			for _, o := range ops {
-				if o.Kind == "tour" || (o.Kind != "rebind" && (x.p.Dests[o.Dest].Name || x.p.Dests[o.Alt].Name)) {
+				if o.Kind == "tour" || o.Kind == "backlog" || (o.Kind != "rebind" && (x.p.Dests[o.Dest].Name || x.p.Dests[o.Alt].Name)) {
 					uses = true
 				}
 			}
@@ -703,6 +790,34 @@ func (x *exec) judge(out *outcome, fail func(sig, format string, args ...any)) {
 			fail("relay-socket-shared", "relay socket %s carried session %d/%d and session %d/%d", a.From, o.session, o.sock, k.session, k.sock)
 		}
 		owner[a.From.Port()] = k
+	}
+
+	// --- exactly-once expectations (backlog within the send channel capacity, traffic after it drained) ---
+	dropped := 0
+	for k := range x.atMost {
+		if seen[k] == 0 {
+			dropped++
+		}
+	}
+	if dropped > 0 {
+		x.mu.Lock()
+		x.gLabels["dropped-by-full-channel"] += dropped
+		x.mu.Unlock()
+	}
+	if !x.abort.Load() {
+		var lost []string
+		for k, why := range x.once {
+			if seen[k] == 0 {
+				lost = append(lost, fmt.Sprintf("session %d seq %d (%s)", k[0], k[1], why))
+			}
+		}
+		if len(lost) > 0 {
+			sort.Strings(lost)
+			if len(lost) > 6 {
+				lost = append(lost[:6], fmt.Sprintf("... %d in total", len(lost)))
+			}
+			x.miss("backlog-datagram-lost: never observed at its destination: " + strings.Join(lost, "; "))
+		}
 	}
 
 	// --- replies at client sockets ---
